@@ -130,13 +130,18 @@ def run(ctx):
     # (3) very long inputs (parser stack limits): the implementation alone must answer, not crash
     longs = [b"1 " * 12000, b"(" * 6000 + b")" * 6000, b'"%( ' + b"1 " * 12000 + b' %)"', b"[" * 3000 + b"]" * 3000,
              b"1 " * 9990 + b"add", b"(1, " * 4000 + b"1" + b")" * 4000, b"?(" * 5200 + b")" * 5200, b"dup " * 50000,
-             b'"' + b"a" * 200000 + b'"', b"1" * 5000, b"/*" + b"*" * 100000 + b"/ 1", b"let A := " * 3000]
+             b'"' + b"a" * 200000 + b'"', b"1" * 5000, b"/*" + b"*" * 100000 + b"/ 1", b"let A := " * 3000,
+             b"1 " * 200000, b"1 drop " * 100000, b"(1)" * 60000]
     if not ctx.replay:
         nlong = 0
         for q in longs:
             rc, out, err = common.run_lines(h.exe, ["A " + zwcorr.hx(q)], timeout=3600, args=[str(h.budget), "30"])
             nlong += 1
-            if rc in (0, 3) and not any("CONTRACT" in l for l in out):
+            if rc == 0 and not any("CONTRACT" in l for l in out):
+                continue
+            if rc == 3 or any("timeout" in l for l in out):
+                ctx.violation("the library does not answer within 30 s on a long query (%d bytes, starts %r): neither a query nor an error"
+                              % (len(q), q[:20]), {"stream": "C14-long", "input_hex": q.hex()[:2000], "input_len": len(q)})
                 continue
             depth = 0
             mx = 0
